@@ -11,7 +11,7 @@ CHECKS = {
    note="trusts sha2 and the 15-line RFC 6962 reference in the harness; universality over all sizes/contents is sampled, exhaustive only for <=64 leaves (one bit per byte position)"),
  "C09": dict(engine="conductor-celestia", cat="exploration", ref="DESIGN.md §5 C09",
    technique="runtime monitoring: real ensure_commit_has_quorum and real decode->verify->reconstruct pipeline driven with harness-signed commits and hostile blobs; offline exact-integer oracle over the recorded event log",
-   text="Enumerates every voting-power vector over a 10-value alphabet for <=3 (quick) / <=4 (thorough) validators x every signer subset x signature defects (forged, duplicated, nil, wrong chain/height/round/block, outsider) against the real quorum check, and runs the real Celestia blob pipeline against a loopback CometBFT mock with honest and hostile metadata/rollup blobs; the Python oracle recomputes 3c>2t over distinct validly signing validators and the expected accepted set. Held = no accepted commit/metadata/rollup data outside the oracle on the executions produced.",
+   text="Enumerates every voting-power vector over a 10-value alphabet for <=3 (quick) / <=4 (thorough) validators x every signer subset x signature defects (forged, duplicated, nil, wrong chain/height/round/block, outsider) against the real quorum check, and runs the real Celestia blob pipeline against a loopback CometBFT mock with honest and hostile metadata/rollup blobs; the Python oracle recomputes 3c>2t over distinct validly signing validators and the expected accepted set, and demands completeness: an acceptable block whose genuine rollup blob was posted is reconstructed with exactly that data also when unverifiable blobs naming the same block precede it. Held = no accepted commit/metadata/rollup data outside the oracle on the executions produced.",
    note="the harness signs, so signature validity is known by construction; ed25519 and the tendermint types are trusted; CometBFT RPC is mocked on loopback; larger validator sets are sampled"),
 }
 
@@ -23,22 +23,22 @@ def _chain(pid, title, what, note="lab replay is a replica of finalize_block's n
 CHECKS.update({
  "C01": _chain("C01", "ledger", "Every successful transaction execution (decided or trial) is compared key-by-key (all balances, escrow, block-fee map) with a reference ledger model computed from the logged actions and the fee schedule read from the pre-state; fee events must equal base+multiplier*size exactly; end-of-block fee payout and per-block supply conservation are checked for every block. Held = no discrepancy on the executions produced."),
  "C02": _chain("C02", "authz", "Every state key changed by every successful transaction is classified and attributed to the authority recorded in the pre-state (owner / bridge withdrawer / sudo / IBC sudo / bridge sudo); attacks by non-authorities, former authorities and bridge accounts are generated and must be refused. Held = no unauthorised change observed."),
- "C03": _chain("C03", "atomic", "Failed executions (bundles failing at every action index, gapped nonces, replays, unaffordable actions after deposit-emitting ones) must leave an empty full-state diff (verifiable, non-verifiable, ephemeral fees/deposits) and no events; successes must consume exactly the signer's current nonce; no tx id or (signer, nonce) succeeds twice in a history."),
- "C04": _chain("C04", "bridge", "Every Deposit appearing in the block's deposit cache is matched, inside the same transaction diff, with an equal credit of the named bridge in the bridge's asset; failed executions add no deposit or deposit event; (bridge, withdrawal event id) pairs are honoured at most once per history across unlock / bridge transfer / ICS-20 withdrawal, with reuse attempts generated on purpose."),
- "C05": _chain("C05", "paths", "Three nodes and a lab node execute every decided block along independently drawn legal ABCI paths (proposer, validator after abandoned honest or corrupted rounds, syncer, restarted node); post-Aspen blocks carry signed oracle vote extensions (validator set with CometBFT's two-height lag, more than 2/3 committing) next to currency-pair removals and additions; FinalizeBlock response digests, app hashes and full-state digests must agree on every height and no legal call may fail or panic on one path only."),
+ "C03": _chain("C03", "atomic", "Failed executions (bundles failing at every action index, gapped nonces, replays, unaffordable actions after deposit-emitting ones, relayer transactions whose IbcRelay fails non-fatally after state-changing actions and stay in the block with an error code) must leave an empty full-state diff (verifiable, non-verifiable, ephemeral fees/deposits) and no events; successes must consume exactly the signer's current nonce; no tx id or (signer, nonce) succeeds twice in a history."),
+ "C04": _chain("C04", "bridge", "Every Deposit appearing in the block's deposit cache is matched, inside the same transaction diff, with an equal credit of the named bridge in the bridge's asset; failed executions add no deposit or deposit event; (bridge, withdrawal event id) pairs are honoured at most once per history across unlock / bridge transfer / ICS-20 withdrawal, with reuse attempts generated on purpose; bridge transfers whose destination is the source bridge itself and self-signing bridges (fees and locks paid from the same balance) are part of the workload."),
+ "C05": _chain("C05", "paths", "Three nodes and a lab node execute every decided block along independently drawn legal ABCI paths (proposer, validator after abandoned honest or corrupted rounds, syncer, restarted node); post-Aspen blocks carry signed oracle vote extensions (validator set with CometBFT's two-height lag, more than 2/3 committing) next to currency-pair removals and additions; some decided blocks are a twin of a node's own earlier proposal differing in exactly one header field (time, proposer, next-validators hash, evidence list), some carry misbehaviour evidence, and at each upgrade height one transaction per action kind is checked before the upgrade and executed in the upgrade block (by the proposer from its mempool, by the others from the block bytes); FinalizeBlock response digests, app hashes and full-state digests must agree on every height and no legal call may fail or panic on one path only."),
  "C18": _chain("C18", "ibc", "Outgoing withdrawals (trace and ibc/ spelling, plain and bridge senders) and incoming packets / acks / time-outs are driven through the real Ics20Transfer handlers; an independent ICS-20 ledger per (channel, sequencer-origin asset) must equal the escrow keys after every step, error-acknowledged receives must change nothing but the ack record, successful ones exactly what the source/sink rule says (incl. the bridge deposit).", note="packets are driven at the penumbra AppHandler boundary (no ICS-23 proof verification); each outgoing packet is resolved at most once, as IBC core guarantees"),
  "C14": _chain("C14", "validators", "Sequences of validator add / update / remove actions (several per block, repeated keys, removals on 1-3 validator sets) across pre-Aspen blocks, the Aspen upgrade block and post-Aspen blocks; every FinalizeBlock.validator_updates batch is folded over the genesis set with CometBFT's rules and compared after every block with the set and count the application stores (both storage formats read through the crate's own getters on the committed snapshot)."),
- "C06": _chain("C06", "proposals", "Every PrepareProposal output (mempools filled around both limits, all max_tx_bytes classes incl. one straddling the size of the signed extended commit, mixed action groups, dependent nonces, failing transactions) is checked for byte limit, sequenced-data limit, group order, acceptance by every node that processes it and fatal-error-free execution; a catalogue of ~20 single mutations (commitments, typed data items, undecodable / truncated / re-signed / duplicated / reordered / replayed / unaffordable transactions, sequenced data over the limit by one byte with a control exactly at the limit) is judged by the real ProcessProposal of a node at the same state."),
+ "C06": _chain("C06", "proposals", "Every PrepareProposal output (mempools filled around both limits, all max_tx_bytes classes incl. one straddling the size of the signed extended commit, mixed action groups, dependent nonces, failing transactions, relayer transactions that fail non-fatally and carry 100-250 kB of rollup data) is checked for byte limit, sequenced-data limit, group order, acceptance by every node that processes it and fatal-error-free execution; a catalogue of ~20 single mutations (commitments, typed data items, undecodable / truncated / re-signed / duplicated / reordered / replayed / unaffordable transactions, sequenced data over the limit by one byte with a control exactly at the limit) is judged by the real ProcessProposal of a node at the same state."),
  "C15": dict(engine="chainsim", cat="exploration", ref="DESIGN.md §5 C15",
    technique="runtime monitoring: real ProposalHandler::validate_proposal / prepare_proposal / price aggregation driven with harness-signed vote extensions on a post-Aspen ChainSim state; offline exact-integer oracle over the recorded cases",
    text="Every voting-power vector over a 9-value alphabet for <=3 (quick) / <=4 (thorough) validators x every signer subset, each with the all-valid extended commit and rotating defects (forged / mis-attributed / wrong height, round or chain signatures, missing signature, oversized / malformed / unknown-pair extensions, duplicated voter, outsider, nil vote with extension, five kinds of last-commit mismatch), plus the empty extended commit; accepted commits have their published prices compared with the min/max of the reported prices (signed 128-bit extremes, negative values, even and odd reporter counts).",
    note="validity of signatures and last-commit agreement is known by construction; the ABCI wrapping (DataItem encoding, proposed_last_commit plumbing, size fallback) is exercised with signed extensions by the ChainSim profiles paths / proposals (C05, C06)"),
- "C07": _chain("C07", "rollups", "After every commit the real GetSequencerBlock / GetFilteredSequencerBlock handlers are called (every subset of the block's rollup ids plus an absent id for <=4 rollups, sampled above) and decoded with the public checked types; the block is split for Celestia and audited conductor-style with an independent RFC 6962 root; the oracle compares every view with the block's rollup submissions in execution order followed by its deposits (from the lab's diffs), and a catalogue of 19 single-element tamperings of the served / published artefacts must be rejected by the receiver-side verification."),
+ "C07": _chain("C07", "rollups", "After every commit the real GetSequencerBlock / GetFilteredSequencerBlock handlers are called (every subset of the block's rollup ids plus an absent id for <=4 rollups, sampled above) and decoded with the public checked types (requests in ascending, reversed, shuffled order and with repeated ids; busy blocks with 10-140 submissions interleaved over 2-4 rollups); the block is split for Celestia and audited conductor-style with an independent RFC 6962 root; the oracle compares every view with the block's rollup submissions in execution order followed by its deposits (from the lab's diffs), and a catalogue of 19 single-element tamperings of the served / published artefacts must be rejected by the receiver-side verification."),
 })
 
 CHECKS["C13"] = dict(engine="mempool-walk", cat="exploration", ref="DESIGN.md §5 C13",
-   technique="runtime monitoring: model-based random operation sequences on the real Mempool with an in-crate structure walker (private pending/parked maps read under the mempool's own lock at quiescent points) and a status sweep; offline invariant oracle over the op log",
-   text="Thousands of operations (inserts with gaps/duplicates/stale nonces, invalid-removals, block inclusions, balance and nonce moves, fee re-costing, expiry with a short TTL, bursts of >15 ready transactions followed by a drained balance) on 2-6 accounts x 3 assets; after every operation the private structure and the status of every accepted id are recorded and the oracle checks exactly-one-place, consecutive ready nonces, affordability against the balances shown, build order, stale-nonce removal and parked limits.",
+   technique="runtime monitoring: model-based random operation sequences and a concurrent stress tier (CheckTx tasks, status / builder-queue readers and the consensus side on a multi-thread runtime, stale snapshots, identical bytes racing, seeded jitter) on the real Mempool, with an in-crate structure walker (private pending/parked maps read under the mempool's own lock at quiescent points) and a status sweep; offline invariant oracle over the op log, observed interleavings counted",
+   text="Thousands of operations (inserts with gaps/duplicates/stale nonces, invalid-removals, block inclusions, balance and nonce moves, fee re-costing, expiry with a short TTL, bursts of >15 ready transactions followed by a drained balance) on 2-6 accounts x 3 assets; after every operation the private structure and the status of every accepted id are recorded and the oracle checks exactly-one-place, consecutive ready nonces, affordability against the balances shown, build order, stale-nonce removal and parked limits. Concurrent tier: 3-6 CheckTx tasks (15 % of transactions submitted by two tasks at once, snapshots published before or after maintenance), 1-3 readers and block inclusion / invalid-removal / balance and nonce moves / maintenance run concurrently per round; every call and return is sequence-numbered, readers' status and builder-queue observations are judged on line, and at the end of each round (all tasks joined) the same structure oracle runs after a final maintenance.",
    note="costs are those reported by CheckedTransaction::total_costs; callers respect the documented contract that shown nonces never decrease; cache bounds are not crossed so eviction cannot explain a missing status")
 
 CHECKS["C16"] = dict(engine="composer-bundles", cat="exploration", ref="DESIGN.md §5 C16",
@@ -57,9 +57,9 @@ CHECKS["C10"] = dict(engine="conductor-executor", cat="exploration", ref="DESIGN
    note="the sequencer and Celestia reader tasks are replaced by the harness delivering into the executor's channels; quiescence between deliveries is RPC inactivity with a bounded wait; watchdog words are counted and make the run inconclusive beyond 2%")
 
 CHECKS["C17"] = dict(engine="vh-wire", cat="exploration", ref="DESIGN.md §5 C17",
-   technique="runtime monitoring / sanitizer-style: panic monitor + round-trip and re-verification oracle over structure-aware protobuf mutants of valid encodings fed to the public astria-core decoders; thorough tier adds valgrind memcheck on the release binary",
-   text="Valid transactions (8 action kinds), sequencer blocks, filtered blocks, Celestia metadata and rollup-data entries and brotli blobs are built with the crate's own builders and mutated at every nesting level (field deletion / duplication / reordering, varints to boundary values and +-1, corrupted length prefixes, 32-byte elements appended or removed, byte flips, truncation at every offset, splices, random bytes; blobs also re-compressed after mutation); every decoder entry point runs under a panic monitor, accepted values must re-encode to the same bytes, their derived artefacts must decode again, and every inclusion proof an accepted full or filtered block carries (per rollup, rollup-transactions root, rollup-ids root) must verify again against the accepted header with the library's own Proof::verify (an independent RFC 9162 verifier runs next to it; its disagreements are reported as observations).",
-   note="the service wrappers (CheckTx, conductor blob fetch) are exercised by the ChainSim CheckTx path and the C09 pipeline with junk blobs; Miri is not used here (ed25519 and brotli are too slow under the interpreter for a useful slice)")
+   technique="runtime monitoring / sanitizer-style: panic monitor + round-trip, received-message-equivalence and re-verification oracle over structure-aware protobuf mutants of valid encodings (incl. bodies mutated and signed again) fed to the public astria-core decoders and, in-crate, to the sequencer's real CheckTx on a live chain state; refusal errors are rendered under the monitor; thorough tier adds valgrind memcheck on the release binary",
+   text="Valid transactions (21 bodies, 16 action kinds; also as bodies that are mutated and then signed again so that the mutant passes signature verification, and with the envelope's type URL rewritten), sequencer blocks, filtered blocks, Celestia metadata and rollup-data entries and brotli blobs are built with the crate's own builders and mutated at every nesting level (field deletion / duplication / reordering, varints to boundary values and +-1, corrupted length prefixes, 32-byte elements appended or removed, byte flips, truncation at every offset, splices, random bytes; blobs also re-compressed after mutation); every decoder entry point runs under a panic monitor, accepted values must re-encode to the same bytes, their derived artefacts must decode again, and every inclusion proof an accepted full or filtered block carries (per rollup, rollup-transactions root, rollup-ids root) must verify again against the accepted header with the library's own Proof::verify (an independent RFC 9162 verifier runs next to it; its disagreements are reported as observations). Accepted transactions must re-encode to the message that was received; every refusal error is rendered (Display, Debug, source chain) under the panic monitor; in-crate, the transactions a ChainSim history produced are mutated whole and as re-signed bodies and fed to the real check_tx (CheckedTransaction::new, cost calculation, mempool insertion) against the committed state.",
+   note="Celestia blob fetch wrappers are exercised by the C09 pipeline with junk blobs; Miri is not used here (ed25519 and brotli are too slow under the interpreter for a useful slice)")
 
 CHECKS["C11"] = dict(engine="relayer-crash", cat="fault_enumeration", ref="DESIGN.md §5 C11",
    technique="runtime monitoring with fault injection: the real BlobSubmitter, submission-state file and CelestiaClient run against a scripted fake Celestia app (tonic on loopback, virtual time); the process is stopped at enumerated RPC arrivals / replies and future-poll indices and restarted from the state file; offline oracle over the recorded history of included BlobTxs and state-file observations",
